@@ -152,7 +152,9 @@ pub mod opt {
     pub const DEFER: u8 = 5;
     pub const NOW: u8 = 6;
     pub const LATER: u8 = 7;
-    pub const DISPOSE_OTHER0: u8 = 8; // +q
+    /// answer a Pull with the next datum immediately followed by the completion
+    pub const DATA_TERM: u8 = 9;
+    pub const DISPOSE_OTHER0: u8 = 10; // +q
     pub const INNER0: u8 = 16; // +inner
     pub const OK: u8 = 32;
     pub const FAIL_SPAWN: u8 = 33;
@@ -168,7 +170,8 @@ pub mod opt {
             DEFER => "defer".into(),
             NOW => "now".into(),
             LATER => "later".into(),
-            8..=15 => format!("dispose-probe{}", c - 8),
+            DATA_TERM => "Data+Terminate".into(),
+            10..=15 => format!("dispose-probe{}", c - 10),
             16..=31 => format!("inner{}", c - 16),
             OK => "ok".into(),
             FAIL_SPAWN => "fail-Spawn".into(),
